@@ -305,6 +305,9 @@ def _cmp(a, b, what, msgs, tol=1e-7, abs_=False):
         return
     x, y = (np.abs(a2.values), np.abs(b2.values)) if abs_ else (a2.values, b2.values)
     ok = np.isfinite(x) & np.isfinite(y)
+    if not np.array_equal(np.isfinite(x), np.isfinite(y)):
+        msgs.append(f"{what}: missing values at different labels ({int((~np.isfinite(x)).sum())} vs {int((~np.isfinite(y)).sum())})")
+        return
     if real.relerr(x[ok], y[ok]) <= tol:
         return
     # do the two differ only by the sign / phase of whole modes?
@@ -382,6 +385,29 @@ def eval_case(c):
             _cmp(s0, o.scores()[0], "split-list: scores", msgs, tol)
         else:
             check(o, comp_map=glue)
+    elif rel == "split-list-many":
+        # 12 list items (more than one decimal digit counts) of two features each, every item with its own labels
+        X2 = xr.DataArray(rng.standard_normal((da.sizes["time"], 24)) * np.linspace(1, 3, 24), dims=("time", "x"),
+                          coords={"time": da.time.values, "x": np.arange(24.0) * 3 + 1})
+        lst = [X2.isel(x=slice(2 * k, 2 * k + 2)) for k in range(12)]
+        a, o = _fit(model, X2, Y=Y), _fit(model, lst, Y=Y)
+        sva, ca, sa = _summary(a, model)
+        svo, co, so = _summary(o, model)
+        if real.relerr(np.ravel(svo), np.ravel(sva)) > tol:
+            msgs.append(f"{rel}: singular values change")
+        _cmp(sa, so, f"{rel}: scores", msgs, tol)
+        if [list(np.asarray(x_.x.values)) for x_ in co] != [list(np.asarray(x_.x.values)) for x_ in lst]:
+            msgs.append(f"{rel}: item k of the components does not carry the labels of item k of the input")
+        else:
+            _cmp(ca.sortby("x"), xr.concat(list(co), "x").sortby("x"), f"{rel}: components", msgs, tol)
+    elif rel == "split-list-item-order":
+        # the second item stores the same labelled samples in another order
+        perm = rng.permutation(da.sizes["time"])
+        lst = [da.isel(lon=slice(0, 2)), da.isel(lon=slice(2, None)).isel(time=perm)]
+        o = _fit(model, lst, Y=Y)
+        def glue(cl):
+            return xr.concat(list(cl), "lon") if isinstance(cl, (list, tuple)) else cl
+        check(o, comp_map=glue)
     elif rel == "custom-names":
         names = dict(sample_name=c.get("sname", "obs"), feature_name=c.get("fname", "gridcell"))
         check(_fit(model, da, names=names, Y=Y))
@@ -472,6 +498,9 @@ def bounded_cases(tier, seed):
     for model in ("EOF", "MCA", "CPCCA"):
         cases.append(dict(model=model, relation="labelled-weights", keep=True))
     cases.append(dict(model="EOF", relation="near-tie-sign", keep=True))
+    for model in ("EOF", "ComplexEOF", "SparsePCA"):
+        cases.append(dict(model=model, relation="split-list-many", keep=model == "EOF"))
+        cases.append(dict(model=model, relation="split-list-item-order", keep=model == "EOF"))
     for model in ("EOF", "HilbertEOF", "ExtendedEOF"):
         cases.append(dict(model=model, relation="transpose-two-sample-dims", keep=True))
     for (sn, fn_) in (("sample_", "feat"), ("time2", "space"), ("n", "p")):
@@ -513,6 +542,21 @@ def run(tier, seed):
     # the sign convention is what makes results independent of the feature order: its contract (shared with C15)
     from props.C15 import deductive_sign
     deductive_sign(res, agg)
+    # splitting over list items: items are combined by label, and each item is cut back from its own block with its own
+    # labels (real Concatenator / chain on structural proxies, contract shared with C02)
+    from props.C02 import deductive as c02_structures
+
+    class _OnlyListClauses:
+        KEEP = ("combined by label", "list item i is cut from the i-th block", "components carry the input's feature coordinates")
+
+        def __init__(self, agg):
+            self.agg = agg
+
+        def vc(self, function, clause, r, config=""):
+            if any(k in clause for k in self.KEEP) or clause in ("within-supported-subset", "has-returning-path"):
+                return self.agg.vc(function, clause, r, config)
+            return True
+    c02_structures(res, _OnlyListClauses(agg), only_lists=True)
     agg.flush()
     run_bounded(res, tier, seed)
     return res
